@@ -117,9 +117,10 @@ impl Url {
     pub fn unescape(s: &str) -> String {
         #[cfg(feature = "ssr")]
         {
+            // a percent-escape can decode to bytes that are not UTF-8 (e.g. `%FF`);
+            // this is client-controlled input, so it must not panic
             percent_encoding::percent_decode_str(s)
-                .decode_utf8()
-                .unwrap()
+                .decode_utf8_lossy()
                 .to_string()
         }
 
